@@ -360,6 +360,14 @@ let exec_proto (toks : string list) (side : string list) : string =
   | ["mpmk"; q; interp; g; o] ->
     let i = Z.of_string interp in let i = if Z.sign i < 0 then Z.add i (Z.shift_left Z.one 32) else i in
     Hashtbl.replace pmappings q { M.pm_gamma = f64_of_hex g; M.pm_offset = f64_of_hex o; M.pm_interp = n_of i }; "ok"
+  | ["mpedit"; q; fld; v] ->
+    let pm = Hashtbl.find pmappings q in
+    let pm' = (match fld with
+        | "gamma" -> { pm with M.pm_gamma = f64_of_hex v }
+        | "off" -> { pm with M.pm_offset = f64_of_hex v }
+        | "interp" -> let i = Z.of_string v in let i = if Z.sign i < 0 then Z.add i (Z.shift_left Z.one 32) else i in { pm with M.pm_interp = n_of i }
+        | _ -> raise Unsupported) in
+    Hashtbl.replace pmappings q pm'; "ok"
   | ["mstream"; b; m] ->
     let gm = Hashtbl.find mappings m in let id = mapid_of gm in
     let want = { M.pm_gamma = id.M.mk_gamma; M.pm_offset = id.M.mk_off; M.pm_interp = id.M.mk_kind } in
